@@ -13,8 +13,8 @@ def fsFuel (total : Nat) : Nat := 1100 * (total + 100) + 100000
 /-- the fuel `asmfs` / `asmfsr` run with: at least `ingestFileFuel` (`Asm/IngestFuel.lean`), the threshold above which
 `ingestFile_terminates` PROVES that fuel is not the reason for any answer — it pre-runs the include expansion and takes
 the assembler bound `257 * (opsSize + 2)` of the ops the sources really yield (files that import each other twice
-multiply the ops, so no bound in the text size alone would do).  The hypothesis `nodesBound fs (total + 1)` of that
-theorem (a file has no more statements than bytes + 1) is not proved. -/
+multiply the ops, so no bound in the text size alone would do).  Its premise — no file has more statements than
+`total + 1` — holds because a text has at most as many statements as characters (`C14_ingest_terminates_lengths`). -/
 def fsFuelFor (fs : FS) (total : Nat) (top : PathC) : Nat :=
   max (fsFuel total) (ingestFileFuel fs ⟨true, []⟩ (total + 1) top)
 
